@@ -33,7 +33,7 @@ fn main() {
             use std::io::{Error, ErrorKind};
             featcheck::virtual_file(path).map_err(|h| {
                 let kind = [ErrorKind::NotFound, ErrorKind::PermissionDenied, ErrorKind::Other, ErrorKind::InvalidInput, ErrorKind::Interrupted, ErrorKind::TimedOut][(h / 2 % 6) as usize];
-                Box::new(Error::new(kind, "virtual")) as Box<dyn std::error::Error + Send + Sync>
+                Box::new(Error::new(kind, "No such file (virtual)")) as Box<dyn std::error::Error + Send + Sync>
             })
         }
         let d = featcheck::resolution_digest(io_errors);
